@@ -271,6 +271,7 @@ func runConc(prop string, c *ConcCase, ch sched.Chooser) (concStats, []int, stri
 		return st, nil, "server start: " + err.Error()
 	}
 	defer s.Close()
+	s.Inline = true // the scheduler identifies workers by goroutine
 	s.SetClock(5000)
 	if f := mustCreate(s, nil, tbl, []string{"f", "g"}); f != nil {
 		return st, nil, f.Msg
